@@ -701,7 +701,7 @@ def _design_jobs(d, tier):
             gm = dict(G_SEND, ops=kind_ops(kind, G_SEND["ops"])) if m == "falsy_is_none" else g
             jobs.append((("mutant", kind, m),
                          make_cfg(d, f"mut_{kind}_{m}", kind, m, gm, keep=True, emit=False, invs=["LockStepModF7"]), {}))
-    g = dict(G_TRYQ, ops=kind_ops("agen", ALL_OPS))
+    g = dict(G_TRYQ, ops=G_TRYQ["ops"] + ["send0", "tSA"])
     jobs.append((("fixed", "agen", "fixed"),
                  make_cfg(d, "fixed_agen", "agen", "fixed", g, keep=False, emit=False, invs=["LockStep", "NoOrphan"]), {}))
     for kind in KINDS:
